@@ -78,6 +78,21 @@ Theorem C12_remove_invalid_keeps_wellformed_lines :
 Proof. exact remove_invalid_utf8_proof. Qed.
 Print Assumptions C12_remove_invalid_keeps_wellformed_lines.
 
+(* ... so every line it emits is well-formed, and reading its output back gives exactly the kept lines *)
+Theorem C12_remove_invalid_output_wellformed :
+  forall input, bytes_okb input = true ->
+  records 10 false (remove_invalid_utf8 input) = filter is_utf8b (records 10 false input) /\
+  Forall WellFormed (records 10 false (remove_invalid_utf8 input)).
+Proof. exact remove_invalid_output_wellformed_proof. Qed.
+Print Assumptions C12_remove_invalid_output_wellformed.
+
+(* the specification itself: Table 3-7 strings are exactly the UTF-8 encodings (Table 3-6) of sequences of
+   Unicode scalar values -- the row-by-row table and the arithmetic definition agree *)
+Theorem C12_wellformed_iff_scalar_sequence :
+  forall bs, WellFormed bs <-> exists cps, Forall is_scalar cps /\ bs = concat (map utf8_encode cps).
+Proof. exact wellformed_iff_scalar_sequence_proof. Qed.
+Print Assumptions C12_wellformed_iff_scalar_sequence.
+
 (* ---- non-vacuity: concrete data meeting the hypotheses / exercising both sides *)
 Example C12_nonvacuous_decode :
   bytes_okb [0xE2; 0x82; 0xAC; 0x41] = true /\
